@@ -28,7 +28,7 @@ def run_shard(ctx):
         cfg = TL.Config(r, pools='large')
         feats = {'arith', 'div', 'neg', 'ternary', 'casts', 'math', 'locals', 'assign_ops', 'calls', 'if', 'while', 'dowhile', 'times', 'times_clobber',
                  'loop', 'break', 'block', 'countjump', 'timelabels', 'sigils', 'logic_cond', 'cmp_value', 'logic_value', 'bitwise', 'not', 'lognot', 'bitnot',
-                 }   # goto / explicit jump times are not among the constructs C06 quantifies over
+                 'const_conds'}   # goto / explicit jump times are not among the constructs C06 quantifies over
         for x in list(feats):
             if r.chance(0.1): feats.discard(x)
         env = LW.tl_env(cfg, feats)
